@@ -248,7 +248,7 @@ def ed_uncompressed(ctx, f):
     return True, ""
 
 
-def combined_delegates(ctx, f, method):
+def combined_delegates(ctx, f, method, extra=None):
     """each arm = inner.<method>(variant payload) possibly followed by to_vec"""
     an = ctx.an(f)
     rets = an.defs().get(0, [])
@@ -267,6 +267,10 @@ def combined_delegates(ctx, f, method):
         arg = strip(es.a[1][0])
         if not (arg.k == "vfield" and strip(arg.a[0]).k == "param" and strip(arg.a[0]).a[0] == 1):
             return False, "delegation argument is not the variant payload of self"
+        if extra is not None:
+            rest = [strip(a) for a in es.a[1][1:]]
+            if len(rest) != len(extra) or any(not (a.k == "param" and a.a[0] == i) for a, i in zip(rest, extra)):
+                return False, "delegation does not pass the other arguments through unchanged: %s" % short(es, 200)
         variant = arg.a[1]
         # variant actually selected on this path
         sel = None
